@@ -71,6 +71,7 @@ class Driver:
         self.by = None
         self.by_views = None
         self.pending = None
+        self.pl_given = None       # the path-loss array the caller handed over last
 
     def dims(self, s):
         sp = self.splits[s - 1]
@@ -98,6 +99,38 @@ class Driver:
         else:
             self.by.init_from_channel_matrix(give, np.array(nr), np.array(nt), K)
         self.by_views = (np.array(self.by.big_H), [[np.array(self.by.get_Hkl(k, l)) for l in range(K)] for k in range(K)])
+
+    def alias_probe(self):
+        """the caller writes into the path-loss array it passed earlier: either the write is refused (read-only), or
+        the object keeps reporting ONE path loss coherently (all views agree with `pathloss`); the write is undone"""
+        pl = self.pl_given
+        if pl is None or self.obj.pathloss is None:
+            return None
+        old = pl[0, 0]
+        try:
+            pl[0, 0] = old * 4 + 1
+        except ValueError:
+            return None            # write-protected: fine
+        try:
+            o = self.obj
+            rep = np.asarray(o.pathloss, dtype=float)
+            K = rep.shape[0]
+            H = o.H
+            for k in range(K):
+                for l in range(K):
+                    a = np.asarray(o.get_Hkl(k, l))
+                    b = np.asarray(o.get_Hk(k))
+                    nt = [np.asarray(H[k, j]).shape[1] for j in range(rep.shape[1])]
+                    c0 = int(np.sum(nt[:l]))
+                    if not np.allclose(a, b[:, c0:c0 + a.shape[1]], atol=1e-9):
+                        return ("after the caller wrote into the path-loss array it had passed, get_Hkl and get_Hk disagree "
+                                "(one uses the new values, a cache the old ones)")
+            return None
+        finally:
+            try:
+                pl[0, 0] = old
+            except ValueError:
+                pass
 
     def bystander_changed(self):
         if self.by is None:
@@ -166,6 +199,7 @@ class Driver:
                     o.set_pathloss(main, frac_matrix(e["plm"]["ext"]))
                 else:
                     o.set_pathloss(main)
+                self.pl_given = main
             return None
         if op == "SetNoiseVar":
             o.noise_var = {"none": None, "zero": 0.0, "pos": 0.5}[a[0]]
@@ -178,6 +212,8 @@ class Driver:
                 nr, _, _ = self.dims(e["post"]["split"])
                 r = np.random.RandomState(1000 + a[0])
                 self.filters = [_gint(r, n, n) + np.eye(n) * 5 for n in nr]
+                # filters of different element types in one list: the first one is real valued (float64)
+                self.filters[0] = np.real(self.filters[0]).astype(float) + np.eye(nr[0])
                 o.set_post_filter(list(self.filters))
             return None
         if op == "ReadH":
@@ -348,6 +384,10 @@ def run_path(job):
             if not np.array_equal(ref, cp):
                 viol.append({"step": i, "op": e["ret"], "what": f"the array {what} was changed by a later call"})
                 break
+        if not viol and e["ret"]["op"] in ("ReadBigH", "GetHk", "ReadH") and drv.pl_given is not None:
+            ap = drv.alias_probe()
+            if ap:
+                viol.append({"step": i, "op": e["ret"], "what": ap})
         bc = drv.pending or drv.bystander_changed()
         drv.pending = None
         if bc:
